@@ -73,4 +73,47 @@ PROPS = {
                 "random lists; distinct = distinct (op,result) lines",
         "partial": "JSON-RPC server robustness and the ~80 embedded getters are runtime/correspondence only",
     },
+    "C14": {
+        "module": "ZenonVerif.Props.C14",
+        "streams": [S("prio", 20000, 1000000), S("filter", 4000, 200000), S("pool", 400, 30000),
+                    S("pool-batch", 60, 3000, driver=False)],
+        "rule": "prio stream: all ordered pairs of boundary (TotalPlasma, BasePlasma) values incl. 0 and the caps, then random "
+                "pairs (equal ratios, same plasma, same hash, hashes one bit apart, zero plasma, full uint64 range so the "
+                "products wrap, in-range), each evaluated in both directions on chain.higherPriority and on the model, plus "
+                "folds of 2-7 competitors in two random arrival orders; filter stream: block-type strings up to 300 long "
+                "(uniform types, contract batches incl. runs of 90-120 ContractSends, user blocks with batches, mostly "
+                "sends) through accountPool.filterBlocksToCommit and the model; pool stream: sequences of 5-34 operations on a real "
+                "chain.NewAccountPool for one address (add on top, competitor for a pooled height with equal/better/random "
+                "plasma, duplicates, competitor of a confirmed block, non-linking blocks, forced adds, momentum confirming "
+                "a prefix of the pool / a competitor / nothing, momentum rollback), after every operation the frontier and "
+                "the uncommitted blocks are compared with the Lean state machine; pool-batch stream (monitors only): a contract "
+                "receive with 0-3 descendant blocks pooled across a momentum, and 2-6 addresses rebuilt by one momentum that "
+                "forks some of them; distinct = distinct (op,result) lines",
+        "partial": "data-race freedom / readers never observing a half-applied block are runtime properties of Go's memory "
+                   "model, not theorems; the pool state machine (model and stream) covers one address and one-block transactions: "
+                   "contract receives with descendant blocks and the cross-address early return of rebuild (candidate F12) are "
+                   "outside the model (negative witness skipped_rebuild_breaks_single_chain)",
+        "assumptions": ["accepted user blocks carry TotalPlasma <= MaxPlasmaForAccountBlock and 0 < BasePlasma <= "
+                        "AccountBlockBasePlasma + ABByteDataPlasma*MaxDataLength (vm.enoughPlasma); blocks of embedded "
+                        "addresses carry TotalPlasma = BasePlasma = 0"],
+    },
+    "C11": {
+        "module": "ZenonVerif.Props.C11",
+        "streams": [S("rewards-pure", 20000, 300000)],
+        "rule": "rewards-pure stream: the vm/constants reward lookups on every epoch 0..400, tick boundaries up to 2^64-1 and "
+                "random epochs; getWeightedStake / getWeightedLiquidityStake / getWeightedSentinel on entries starting or "
+                "revoked before, at the edges of, inside and after the epoch window (incl. the 90% sentinel threshold); "
+                "computePillarRewardForEpoch on random epoch statistics (1-100 pillars, missed slots, zero expected, zero "
+                "total weight, a twelfth each invalid: produced > expected, total weight below the sum); and the contract "
+                "functions computeStakeRewardsForEpoch / computeSentinelRewardsForEpoch / computeDetailedPillarReward / "
+                "computeLiquidityStakeRewardsForEpoch (token tuples, additional reward, a fifteenth with percentages above 100%) run on "
+                "an in-memory contract storage with generated entries, pillars, give-percentages and backers, reading back "
+                "the RewardDeposit of every address; distinct = distinct (op,result) lines",
+        "partial": "T4 epoch cursor / exactly-once per epoch, T5 collect-once and 'identical on all nodes' need the mock-node "
+                   "and two-node streams (not part of this check yet); premises produced<=expected, sum of weights <= total weight, sum expected <= MomentumsPerEpoch "
+                   "are consensus facts (C05) taken as hypotheses",
+        "assumptions": ["epoch statistics satisfy produced_i <= expected_i and sum of pillar weights <= TotalWeight",
+                        "epoch windows are unix seconds with |t| <= 2^62 (int64 subtraction does not wrap)",
+                        "pillar give-percentages are <= 100 (checkPillarPercentages)"],
+    },
 }
